@@ -923,6 +923,12 @@ struct SysHarness
         else
           ++refused;
       }
+      else if (o.kind == 'k' && registered_of[me])
+      {
+        // Frontend::shrink_thread_local_queue(n) (its one line, on this virtual thread's context)
+        if constexpr (SysOpt::queue_type == quill::QueueType::UnboundedBlocking || SysOpt::queue_type == quill::QueueType::UnboundedDropping)
+          stc_of[me]->get_thread_context()->template get_spsc_queue<SysOpt::queue_type>().shrink(o.n);
+      }
       else if (o.kind == 'R')
       {
         F::remove_logger(lg);
